@@ -775,12 +775,40 @@ func init() {
 	natives["sort.Ints"] = func(in *Interp, fn *ssa.Function, args []Value) Value {
 		sl := args[0].(*SliceVal)
 		var xs []int
-		for _, e := range in.sliceElems(sl) {
+		symbolic := false
+		elems := in.sliceElems(sl)
+		for _, e := range elems {
 			v, ok := in.cInt(e)
 			if !ok {
-				panic(in.unsupported("sort.Ints: symbolic"))
+				symbolic = true
+				break
 			}
 			xs = append(xs, int(v))
+		}
+		if symbolic {
+			// a sorting network of compare-exchange steps (the result of sorting is unique, whatever the algorithm)
+			if len(elems) > 8 {
+				panic(in.unsupported("sort.Ints: more than 8 symbolic elements"))
+			}
+			ts := make([]*smt.Term, len(elems))
+			for k, e := range elems {
+				t, ok := e.(*smt.Term)
+				if !ok || t.W != 64 {
+					panic(in.unsupported("sort.Ints: element is not an int"))
+				}
+				ts[k] = t
+			}
+			for i := 0; i < len(ts); i++ {
+				for j := 0; j+1 < len(ts)-i; j++ {
+					gt := in.St.Cmp(smt.OpBvSlt, ts[j+1], ts[j])
+					lo, hi := in.St.Ite(gt, ts[j+1], ts[j]), in.St.Ite(gt, ts[j], ts[j+1])
+					ts[j], ts[j+1] = lo, hi
+				}
+			}
+			for k, t := range ts {
+				in.store(&PtrVal{Obj: sl.Obj, Path: []Sel{{Idx: sl.Off + k}}}, t)
+			}
+			return &TupleVal{}
 		}
 		sort.Ints(xs)
 		for k, x := range xs {
